@@ -4,12 +4,21 @@
 // rot13 and the escapers is taken in Python (base64 / urllib / the strictness predicate / an independent
 // unescaper); only the netloc round-trip law (result == the pair we started from) is compared here.
 //
+// mode=mt: phase 1 runs every record once on the main thread and logs it (Python judges that log exactly like
+//          the main stage, so the reference is approved by the independent oracle); phase 2 starts 8 threads
+//          (barrier), each repeating ITS OWN records for a number of rounds while the others do the same, and
+//          every concurrent result must be byte-identical (status + bytes) to the single-threaded reference.
+//          Built as asan (values) and tsan (races that happen not to corrupt a value).
+// vf::poison_errno() is called directly before every call into phosg.
+//
 // case file:  "C11C" u32 nrecords, then records  u8 op, u8 flag, u32 len, payload[len]
 // obs file:   "C11O" then per record its fields  u8 status, u32 len, bytes[len]
 //             (DECENUM records: per enumerated string  u8 status [, u8 len, bytes] when status==0)
 // status: 0 returned, 1 threw std::invalid_argument, 2 threw another std::exception (bytes = type: what), 3 threw something else
+#include <atomic>
 #include <stdexcept>
 #include <string>
+#include <thread>
 #include <typeinfo>
 #include <vector>
 
@@ -27,6 +36,16 @@ static string obuf;
 
 enum Op { ENC = 1, DEC = 2, ROT = 3, URL = 4, CTRL = 5, QUOTES = 6, DECENUM = 7, NETLOC = 8 };
 
+struct Field {
+  uint8_t status;
+  string bytes;
+  bool operator==(const Field& o) const { return status == o.status && bytes == o.bytes; }
+};
+
+struct Viol {
+  string key, what, kase;
+};
+
 static void flush_obs(bool force) {
   if (obuf.size() > (1 << 20) || force) {
     if (fwrite(obuf.data(), 1, obuf.size(), OBS) != obuf.size()) {
@@ -37,33 +56,30 @@ static void flush_obs(bool force) {
   }
 }
 
-static void put_field(uint8_t status, const string& s) {
-  obuf.push_back((char)status);
-  uint32_t n = (uint32_t)s.size();
+static void put_field(const Field& f) {
+  obuf.push_back((char)f.status);
+  uint32_t n = (uint32_t)f.bytes.size();
   obuf.append((const char*)&n, 4);
-  obuf += s;
+  obuf += f.bytes;
 }
 
-// Runs fn, logs a field, returns status; *out receives the returned string when status == 0.
+// Runs fn (a single call into phosg) and returns what happened.  No shared state: usable from any thread.
 template <typename F>
-static uint8_t observe(F fn, string* out = nullptr) {
-  uint8_t st = 0;
-  string r;
+static Field observe(F fn) {
+  Field f{0, string()};
   try {
-    r = fn();
+    vf::poison_errno();
+    f.bytes = fn();
   } catch (const std::invalid_argument& e) {
-    st = 1;
-    r = e.what();
+    f.status = 1;
+    f.bytes = e.what();
   } catch (const std::exception& e) {
-    st = 2;
-    r = string(typeid(e).name()) + ": " + e.what();
+    f.status = 2;
+    f.bytes = string(typeid(e).name()) + ": " + e.what();
   } catch (...) {
-    st = 3;
+    f.status = 3;
   }
-  put_field(st, r);
-  if (out && st == 0) *out = r;
-  C->evaluations++;
-  return st;
+  return f;
 }
 
 // exact-size heap copy: the end of the data is the end of the allocation
@@ -79,7 +95,6 @@ struct Exact {
     if (n) memcpy(p, d, n);
   }
   ~Exact() { free(p); }
-  // pointer such that [ptr, ptr+n) is the whole allocation when n > 0
   const void* ptr() const { return p; }
 };
 
@@ -92,39 +107,142 @@ static const char* lenbucket(size_t n) {
   return n == 0 ? "len0" : n <= 3 ? "len1-3" : n <= 8 ? "len4-8" : n <= 64 ? "len9-64" : "len65+";
 }
 
-static void netloc_case(const uint8_t* pay, uint32_t len) {
+static const char* op_name(uint8_t op) {
+  switch (op) {
+    case ENC: return "base64_encode";
+    case DEC: return "base64_decode";
+    case ROT: return "rot13";
+    case URL: return "escape_url";
+    case CTRL: return "escape_controls";
+    case QUOTES: return "escape_quotes";
+    case NETLOC: return "netloc";
+    default: return "?";
+  }
+}
+
+// One record (ENC/DEC/ROT/URL/CTRL/QUOTES) -> the fields that go into the observation log.  Thread-safe.
+static vector<Field> exec_record(uint8_t op, uint8_t flag, const uint8_t* pay, uint32_t len) {
+  vector<Field> out;
+  string in((const char*)pay, len);
+  switch (op) {
+    case ENC: {
+      const char* alpha = alphabet_for(flag);
+      Exact e(pay, len);
+      out.push_back(observe([&] { return phosg::base64_encode(e.ptr(), e.n, alpha); }));
+      out.push_back(observe([&] { return phosg::base64_encode(in, alpha); }));
+      if (out[0].status == 0) {
+        const string enc = out[0].bytes;  // copy: out grows below
+        Exact ee(enc.data(), enc.size());
+        out.push_back(observe([&] { return phosg::base64_decode(ee.ptr(), ee.n, alpha); }));
+        out.push_back(observe([&] { return phosg::base64_decode(enc, alpha); }));
+      } else {
+        out.push_back({4, ""});
+        out.push_back({4, ""});
+      }
+      break;
+    }
+    case DEC: {
+      const char* alpha = alphabet_for(flag);
+      Exact e(pay, len);
+      out.push_back(observe([&] { return phosg::base64_decode(e.ptr(), e.n, alpha); }));
+      out.push_back(observe([&] { return phosg::base64_decode(in, alpha); }));
+      break;
+    }
+    case ROT: {
+      Exact e(pay, len);
+      out.push_back(observe([&] { return phosg::rot13(e.ptr(), e.n); }));
+      if (out[0].status == 0) {
+        const string y = out[0].bytes;  // copy: out grows below
+        Exact e2(y.data(), y.size());
+        out.push_back(observe([&] { return phosg::rot13(e2.ptr(), e2.n); }));
+      } else
+        out.push_back({4, ""});
+      break;
+    }
+    case URL:
+      out.push_back(observe([&] { return phosg::escape_url(in, flag != 0); }));
+      break;
+    case CTRL:
+      out.push_back(observe([&] { return phosg::escape_controls(in, flag != 0); }));
+      break;
+    case QUOTES:
+      out.push_back(observe([&] { return phosg::escape_quotes(in); }));
+      break;
+    default:
+      fprintf(stderr, "[harness-error] exec_record: op %u\n", op);
+      exit(3);
+  }
+  return out;
+}
+
+static string exec_class(uint8_t op, uint8_t flag, uint32_t len, const vector<Field>& f) {
+  switch (op) {
+    case ENC: return fmt("exec:b64enc:%s:rem%u:%s", alpha_name(flag), len % 3, lenbucket(len));
+    case DEC: return fmt("exec:b64dec:%s:%s:%s", alpha_name(flag), f[0].status == 0 ? "returned" : f[0].status == 1 ? "invalid_argument" : "other-exception", lenbucket(len));
+    case ROT: return fmt("exec:rot13:%s", lenbucket(len));
+    case URL: return fmt("exec:escape_url:%s:%s", flag ? "escape-slash" : "keep-slash", lenbucket(len));
+    case CTRL: return fmt("exec:escape_controls:%s:%s", flag ? "ascii" : "utf8", lenbucket(len));
+    default: return fmt("exec:escape_quotes:%s", lenbucket(len));
+  }
+}
+
+struct NetlocRec {
+  uint32_t lo, hi;
+  string host;
+};
+static NetlocRec parse_netloc_record(const uint8_t* pay, uint32_t len) {
   if (len < 8) {
     fprintf(stderr, "[harness-error] short NETLOC record\n");
     exit(3);
   }
-  uint32_t lo, hi;
-  memcpy(&lo, pay, 4);
-  memcpy(&hi, pay + 4, 4);
-  string host((const char*)pay + 8, len - 8);
+  NetlocRec r;
+  memcpy(&r.lo, pay, 4);
+  memcpy(&r.hi, pay + 4, 4);
+  r.host.assign((const char*)pay + 8, len - 8);
+  return r;
+}
+
+// render -> parse round trip for every port in [lo, hi); violations go to `sink` (thread-local in mt mode).
+// crumbs only when called from the main thread.
+static uint64_t netloc_roundtrips(const NetlocRec& r, vector<Viol>& sink, bool crumbs, const char* keyprefix) {
+  const string& host = r.host;
   string hd = host.size() <= 40 ? vf::hex(host) : vf::hex(host.substr(0, 16)) + fmt("...(%zu bytes)", host.size());
+  uint64_t n = 0;
+  for (uint32_t port = r.lo; port < r.hi; port++) {
+    if (crumbs) C->crumb_n("netloc", port, host.size());
+    n++;
+    try {
+      vf::poison_errno();
+      string nl = phosg::render_netloc(host, (int)port);
+      vf::poison_errno();
+      auto back = phosg::parse_netloc(nl, 0);
+      if (back.first != host && sink.size() < 50)
+        sink.push_back({string(keyprefix) + "netloc:roundtrip:host", "parse_netloc(render_netloc(h,p),0).first != h",
+            fmt("host(hex)=%s port=%u rendered(hex)=%s parsed-host(hex)=%s", hd.c_str(), port, vf::hex(nl.substr(0, 80)).c_str(), vf::hex(back.first.substr(0, 80)).c_str())});
+      if (back.second != port && sink.size() < 50)
+        sink.push_back({string(keyprefix) + (port == 0 ? "netloc:roundtrip:port0" : "netloc:roundtrip:port"), "parse_netloc(render_netloc(h,p),0).second != p",
+            fmt("host(hex)=%s port=%u parsed-port=%u", hd.c_str(), port, (unsigned)back.second)});
+    } catch (const std::exception& e) {
+      if (sink.size() < 50)
+        sink.push_back({string(keyprefix) + "netloc:throws", string("render/parse_netloc threw ") + typeid(e).name() + ": " + e.what(), fmt("host(hex)=%s port=%u", hd.c_str(), port)});
+    }
+  }
+  return n;
+}
+
+static void netloc_case(const uint8_t* pay, uint32_t len, bool classes) {
+  NetlocRec r = parse_netloc_record(pay, len);
+  vector<Viol> sink;
+  C->evaluations += netloc_roundtrips(r, sink, true, "");
+  for (auto& v : sink) C->violation(v.key, v.what, v.kase);
+  if (!classes) return;
   bool high = false, dots = false;
-  for (unsigned char ch : host) {
+  for (unsigned char ch : r.host) {
     high |= ch >= 0x80;
     dots |= ch == '.' || ch == '-';
   }
-  for (uint32_t port = lo; port < hi; port++) {
-    C->crumb_n("netloc", port, host.size());
-    C->evaluations++;
-    try {
-      string nl = phosg::render_netloc(host, (int)port);
-      auto back = phosg::parse_netloc(nl, 0);
-      if (back.first != host)
-        C->violation("netloc:roundtrip:host", "parse_netloc(render_netloc(h,p),0).first != h",
-            fmt("host(hex)=%s port=%u rendered(hex)=%s parsed-host(hex)=%s", hd.c_str(), port, vf::hex(nl.substr(0, 80)).c_str(), vf::hex(back.first.substr(0, 80)).c_str()));
-      if (back.second != port)
-        C->violation(port == 0 ? "netloc:roundtrip:port0" : "netloc:roundtrip:port", "parse_netloc(render_netloc(h,p),0).second != p",
-            fmt("host(hex)=%s port=%u parsed-port=%u", hd.c_str(), port, (unsigned)back.second));
-    } catch (const std::exception& e) {
-      C->violation("netloc:throws", string("render/parse_netloc threw ") + typeid(e).name() + ": " + e.what(), fmt("host(hex)=%s port=%u", hd.c_str(), port));
-    }
-  }
-  C->cls(fmt("netloc:host-%s%s%s:ports-%s", host.size() == 1 ? "1char" : host.size() >= 255 ? "255+" : "mid", high ? "-highbytes" : "", dots ? "-dots" : "",
-      lo == 0 ? "from0" : hi == 65536 ? "to65535" : "mid"));
+  C->cls(fmt("netloc:host-%s%s%s:ports-%s", r.host.size() == 1 ? "1char" : r.host.size() >= 255 ? "255+" : "mid", high ? "-highbytes" : "", dots ? "-dots" : "",
+      r.lo == 0 ? "from0" : r.hi == 65536 ? "to65535" : "mid"));
 }
 
 // All strings  prefix + (symbols)^(L - plen)  in itertools.product order (last position varies fastest).
@@ -161,6 +279,7 @@ static void decenum_case(uint8_t flag, const uint8_t* pay, uint32_t len) {
     uint8_t st = 0;
     string r;
     try {
+      vf::poison_errno();
       r = phosg::base64_decode(e.ptr(), e.n, alpha);
     } catch (const std::invalid_argument&) {
       st = 1;
@@ -194,6 +313,78 @@ static void decenum_case(uint8_t flag, const uint8_t* pay, uint32_t len) {
   C->cls(fmt("exec:decenum:%s:L%u:%usyms", alpha_name(flag), L, nsym));
 }
 
+// ---- concurrency mode -------------------------------------------------------------------------------
+struct Rec {
+  uint8_t op, flag;
+  const uint8_t* pay;
+  uint32_t len;
+  vector<Field> ref;  // single-threaded reference (logged; judged by the Python oracle)
+};
+struct MtResult {
+  uint64_t evaluations = 0, mismatches = 0;
+  vector<Viol> v;
+};
+static const unsigned NTHREADS = 8;
+
+static string show_field(const Field& f) {
+  static const char* st[] = {"returned", "threw invalid_argument", "threw other std::exception", "threw non-std", "(skipped)"};
+  return fmt("%s %s", st[f.status <= 4 ? f.status : 3], f.bytes.size() <= 120 ? vf::hex(f.bytes).c_str() : (vf::hex(f.bytes.substr(0, 120)) + "...").c_str());
+}
+
+static void mt_worker(unsigned t, const vector<Rec>* recs, unsigned rounds, atomic<unsigned>* ready, atomic<bool>* go, MtResult* out) {
+  vector<const Rec*> mine;
+  for (size_t i = t; i < recs->size(); i += NTHREADS) mine.push_back(&(*recs)[i]);
+  ready->fetch_add(1);
+  while (!go->load(std::memory_order_acquire)) {
+  }
+  for (unsigned r = 0; r < rounds; r++) {
+    for (const Rec* rec : mine) {
+      if (rec->op == NETLOC) {
+        NetlocRec nr = parse_netloc_record(rec->pay, rec->len);
+        size_t before = out->v.size();
+        out->evaluations += netloc_roundtrips(nr, out->v, false, "mt:");
+        out->mismatches += out->v.size() - before;
+        continue;
+      }
+      vector<Field> got = exec_record(rec->op, rec->flag, rec->pay, rec->len);
+      out->evaluations += got.size();
+      for (size_t i = 0; i < got.size() && i < rec->ref.size(); i++) {
+        if (got[i] == rec->ref[i]) continue;
+        out->mismatches++;
+        if (out->v.size() < 20)
+          out->v.push_back({fmt("mt:%s:differs-from-single-threaded", op_name(rec->op)),
+              fmt("%s on an unshared input returned something else than the same call made single-threaded (other threads were running the C11 functions on their own inputs)", op_name(rec->op)),
+              fmt("op=%s flag=%u field=%zu thread=%u round=%u input(hex)=%s concurrent=[%s] single-threaded=[%s]", op_name(rec->op), rec->flag, i, t, r,
+                  vf::hex(rec->pay, rec->len < 100 ? rec->len : 100).c_str(), show_field(got[i]).c_str(), show_field(rec->ref[i]).c_str())});
+      }
+    }
+  }
+}
+
+static void run_mt(vector<Rec>& recs) {
+  bool tsan = C->arg("tsan") == "1";
+  unsigned rounds = tsan ? C->qt(4u, 25u) : C->qt(60u, 300u);
+  C->crumb("mt mode: %u threads x %u rounds over %zu records (no per-case breadcrumb inside the threads)", NTHREADS, rounds, recs.size());
+  atomic<unsigned> ready{0};
+  atomic<bool> go{false};
+  vector<MtResult> res(NTHREADS);
+  vector<thread> th;
+  for (unsigned t = 0; t < NTHREADS; t++) th.emplace_back(mt_worker, t, &recs, rounds, &ready, &go, &res[t]);
+  while (ready.load() < NTHREADS) {
+  }
+  go.store(true, std::memory_order_release);
+  for (auto& t : th) t.join();
+  for (auto& r : res) {
+    C->evaluations += r.evaluations;
+    for (auto& v : r.v) C->violation(v.key, v.what, v.kase);
+    if (r.mismatches > r.v.size()) C->count("mt_mismatches_not_listed", r.mismatches - r.v.size());
+  }
+  C->count("mt_threads", NTHREADS);
+  C->count("mt_rounds", rounds);
+  for (auto& rec : recs) C->cls(fmt("concurrent:%uthreads:%s:flag%u:%s", NTHREADS, op_name(rec.op), rec.flag, rec.op == NETLOC ? "ports" : lenbucket(rec.len)));
+  C->sample(fmt("%u threads x %u rounds: every thread repeats its own base64/rot13/escape_*/netloc records; each result must equal the single-threaded result (which the Python oracle judged)", NTHREADS, rounds));
+}
+
 int main(int argc, char** argv) {
   vf::Ctx& c = vf::init(argc, argv);
   C = &c;
@@ -202,6 +393,7 @@ int main(int argc, char** argv) {
     fprintf(stderr, "[harness-error] --arg cases=<prefix> --arg obs=<prefix> required\n");
     return 3;
   }
+  bool mt = c.arg("mode") == "mt";
   string path = fmt("%s.%u.bin", base.c_str(), c.shard);
   FILE* f = fopen(path.c_str(), "rb");
   if (!f) {
@@ -226,6 +418,7 @@ int main(int argc, char** argv) {
   uint32_t nrec;
   memcpy(&nrec, buf.data() + 4, 4);
   size_t pos = 8;
+  vector<Rec> recs;
   for (uint32_t rec = 0; rec < nrec; rec++) {
     if (pos + 6 > buf.size()) {
       fprintf(stderr, "[harness-error] truncated case file\n");
@@ -241,64 +434,34 @@ int main(int argc, char** argv) {
     }
     const uint8_t* pay = &buf[pos];
     pos += len;
-    string in((const char*)pay, len);
     c.crumb("record=%u op=%u flag=%u len=%u payload(hex)=%s", rec, op, flag, len, vf::hex(pay, len < 200 ? len : 200).c_str());
     c.crumb_n("(not inside an enumeration loop)");
     switch (op) {
-      case ENC: {
-        const char* alpha = alphabet_for(flag);
-        Exact e(pay, len);
-        string enc, enc2;
-        uint8_t st = observe([&] { return phosg::base64_encode(e.ptr(), e.n, alpha); }, &enc);
-        observe([&] { return phosg::base64_encode(in, alpha); }, &enc2);
-        if (st == 0) {
-          Exact ee(enc.data(), enc.size());
-          observe([&] { return phosg::base64_decode(ee.ptr(), ee.n, alpha); });
-          observe([&] { return phosg::base64_decode(enc, alpha); });
-        } else {
-          put_field(4, "");
-          put_field(4, "");
-        }
-        c.cls(fmt("exec:b64enc:%s:rem%u:%s", alpha_name(flag), len % 3, lenbucket(len)));
-        break;
-      }
-      case DEC: {
-        const char* alpha = alphabet_for(flag);
-        Exact e(pay, len);
-        uint8_t st = observe([&] { return phosg::base64_decode(e.ptr(), e.n, alpha); });
-        observe([&] { return phosg::base64_decode(in, alpha); });
-        c.cls(fmt("exec:b64dec:%s:%s:%s", alpha_name(flag), st == 0 ? "returned" : st == 1 ? "invalid_argument" : "other-exception", lenbucket(len)));
-        break;
-      }
-      case ROT: {
-        Exact e(pay, len);
-        string y;
-        uint8_t st = observe([&] { return phosg::rot13(e.ptr(), e.n); }, &y);
-        if (st == 0) {
-          Exact e2(y.data(), y.size());
-          observe([&] { return phosg::rot13(e2.ptr(), e2.n); });
-        } else
-          put_field(4, "");
-        c.cls(fmt("exec:rot13:%s", lenbucket(len)));
-        break;
-      }
+      case ENC:
+      case DEC:
+      case ROT:
       case URL:
-        observe([&] { return phosg::escape_url(in, flag != 0); });
-        c.cls(fmt("exec:escape_url:%s:%s", flag ? "escape-slash" : "keep-slash", lenbucket(len)));
-        break;
       case CTRL:
-        observe([&] { return phosg::escape_controls(in, flag != 0); });
-        c.cls(fmt("exec:escape_controls:%s:%s", flag ? "ascii" : "utf8", lenbucket(len)));
+      case QUOTES: {
+        vector<Field> fields = exec_record(op, flag, pay, len);
+        for (auto& fl : fields) {
+          put_field(fl);
+          if (fl.status != 4) c.evaluations++;
+        }
+        if (!mt) c.cls(exec_class(op, flag, len, fields));
+        if (mt) recs.push_back({op, flag, pay, len, fields});
         break;
-      case QUOTES:
-        observe([&] { return phosg::escape_quotes(in); });
-        c.cls(fmt("exec:escape_quotes:%s", lenbucket(len)));
-        break;
+      }
       case DECENUM:
+        if (mt) {
+          fprintf(stderr, "[harness-error] DECENUM record in an mt case file\n");
+          return 3;
+        }
         decenum_case(flag, pay, len);
         break;
       case NETLOC:
-        netloc_case(pay, len);
+        netloc_case(pay, len, !mt);
+        if (mt) recs.push_back({op, flag, pay, len, {}});
         break;
       default:
         fprintf(stderr, "[harness-error] unknown op %u\n", op);
@@ -312,6 +475,9 @@ int main(int argc, char** argv) {
     fprintf(stderr, "[harness-error] close observation log\n");
     return 3;
   }
-  c.sample("base64_decode(\"QUJD\") / escape_url / escape_controls / rot13 outputs are logged for the Python oracle; see vf/oracles/c11.py");
+  if (mt)
+    run_mt(recs);
+  else
+    c.sample("base64_decode(\"QUJD\") / escape_url / escape_controls / rot13 outputs are logged for the Python oracle; see vf/oracles/c11.py");
   return c.finish();
 }
